@@ -156,7 +156,7 @@ def run(R):
     if vke is not None:
         R.gate("C04.vke", vke, RetSink("Ok"), [[CmpGuard(Pm(2), call_results([TRK]), "Eq",
                                                          "expected_record_key == address.to_record_key()")]],
-               descr="validate_key_and_existence returns Ok only for matching keys", min_sinks=2)
+               descr="validate_key_and_existence returns Ok only for matching keys")
         R.must_call("C04.vke.addr", VKE, [TRK], "key computed from the address argument")
 
     # (3b) presented key per storing arm
